@@ -282,7 +282,7 @@ func C10Yaml(ctx, depth, pairs, items int) {
 		}
 		kv = append(kv, g.sc(nameTag, name), def)
 	default:
-		kv = append(kv, g.str("R"), g.mp("!record", g.str("fields"), g.mp("!!map", g.str("a"), g.str("int"), g.str("o"), g.str("int?"), g.str("v"), g.str("int*"), g.str("arr"), g.str("float[x,y]"), g.str("m"), g.str("string->int")),
+		kv = append(kv, g.str("R"), g.mp("!record", g.str("fields"), g.mp("!!map", g.str("a"), g.str("int"), g.str("o"), g.str("int?"), g.str("v"), g.str("int*"), g.str("fv"), g.str("int*3"), g.str("arr"), g.str("float[x,y]"), g.str("m"), g.str("string->int")),
 			g.str("computedFields"), g.mp("!!map", g.str("c"), g.exprNode(depth, "e"))))
 	}
 	yamlPipelineB(g.mp("!!map", kv...), g.aliases)
@@ -298,11 +298,11 @@ func (g *yg) exprNode(depth int, label string) *yaml.Node {
 	switch verifChoose(label+"kind", nk) {
 	case 0:
 		desc := []string{"a", "lit", "neg", "flt", "bool", "null", "bad", "sw", "call", "empty",
-			"vsub", "vsubf", "asub", "asubz", "asubdup", "asubmix", "asubmany", "msub", "unclosed", "member", "conv", "pow", "sizex", "sizeq", "dimidx", "strlit", "biglit"}
+			"vsubbig", "msubint", "vsub", "vsubf", "asub", "asubz", "asubdup", "asubmix", "asubmany", "msub", "unclosed", "member", "conv", "pow", "sizex", "sizeq", "dimidx", "strlit", "biglit"}
 		tags := []string{"!!str", "!!int", "!!int", "!!float", "!!bool", "!!null", "!!str", "!switch", "!!str", "!!str",
-			"!!str", "!!str", "!!str", "!!str", "!!str", "!!str", "!!str", "!!str", "!!str", "!!str", "!!str", "!!str", "!!str", "!!str", "!!str", "!!str", "!!str"}
+			"!!str", "!!str", "!!str", "!!str", "!!str", "!!str", "!!str", "!!str", "!!str", "!!str", "!!str", "!!str", "!!str", "!!str", "!!str", "!!str", "!!str", "!!str", "!!str"}
 		vals := []string{"a", "1", "-1", "1.5", "true", "", "a +", "o", "size(a)", "",
-			"v[0]", "v[1.5]", "arr[x:0, y:1]", "arr[z:0, y:1]", "arr[x:0, x:1]", "arr[y:0, 1]", "arr[0, 1, 2]", "m[\"k\"]", "v[a", "a.b", "a as float", "-a ** 2", "size(arr, \"x\")", "size(arr, \"q\")", "dimensionIndex(arr, 'y')", "\"s\"", "99999999999999999999999999"}
+			"fv[5]", "m[1]", "v[0]", "v[1.5]", "arr[x:0, y:1]", "arr[z:0, y:1]", "arr[x:0, x:1]", "arr[y:0, 1]", "arr[0, 1, 2]", "m[\"k\"]", "v[a", "a.b", "a as float", "-a ** 2", "size(arr, \"x\")", "size(arr, \"q\")", "dimensionIndex(arr, 'y')", "\"s\"", "99999999999999999999999999"}
 		d := verifOneOf(label, desc...)
 		return g.sc(verifMapStr(label+"tag", d, desc, tags), verifMapStr(label+"val", d, desc, vals))
 	case 1:
